@@ -292,6 +292,7 @@ type World struct {
 	Restarts    int
 	Delivered   []string // ClOrdID (11) of every application message handed to FromApp, in order
 	Loop        *LoopCtl // non-nil: run-loop mode
+	sqlDSN      string   // SQL-store worlds: the data source (statement failures are planned per data source)
 	Hung        bool     // a handler did not return (the world is abandoned)
 	applyStart  int
 	ResetDay    int // occurrences of the reset-time event so far
@@ -443,8 +444,10 @@ func (w *World) boot(first bool) error {
 					return err
 				}
 			}
-			gs.GlobalSettings().Set(config.SQLStoreDriver, "sqlite3")
+			registerSQLFaultDriver()
+			gs.GlobalSettings().Set(config.SQLStoreDriver, SQLFaultDriver)
 			gs.GlobalSettings().Set(config.SQLStoreDataSourceName, db)
+			w.sqlDSN = db
 		}
 		if _, err := gs.AddSession(ss2); err != nil {
 			return err
@@ -954,10 +957,16 @@ func (w *World) applySync(e *Event) {
 		}
 		if e.FailWrite > 0 && w.dir != "" {
 			armWriteFailure(w.dir, e.FailWrite)
+			if w.sqlDSN != "" {
+				armSQLFailure(w.sqlDSN, e.FailWrite)
+			}
 		}
 		err := w.VS.QueueForSend(m)
 		if e.FailWrite > 0 && w.dir != "" {
 			disarmWriteFailure(w.dir)
+			if w.sqlDSN != "" {
+				disarmSQLFailure(w.sqlDSN)
+			}
 		}
 		if err != nil {
 			w.log = append(w.log, Obs{K: "senderr", Txt: err.Error()})
